@@ -32,6 +32,17 @@ strided, sliced, axis-reversed, complex-dtype, integer-dtype and list inputs (`<
 configurations of all six functions in three call orders inside one process with one repeated at the end
 (`<fn>/call-order-dependent`).
 
+Round-4 lesson additions: numerical regime (generator lists whose coordinate matrix has exactly prescribed singular values 1..1e-6, with
+exact dependents, fewer / more generators than the ambient dimension, magnitudes 1e-6..1e2; planted elements of rank p >= 2 that are nearly
+of rank p-1 (singular ratio down to 1e-6); bases equal to the planted ones only up to 1e-14 rounding noise incl. a complex dtype; numerical
+ranges and bipartite ranges at magnitudes 1e-8 / 1e8, c*1+eps*X, nearly degenerate top eigenvalue, all judged relative to the operator norm
+without a floor of 1), shapes (all cyclic orders of tripartite (2,3,4), a middle party of dimension 1, symmetric real subspaces with planted
+x x^T for the rank-one detector), and the less prominent entry points: reduce_vector_space, get_vector_orthogonal_basis (contracts, reached
+on every basis call and directly with tall / square / wide inputs and tag_reduce=False), is_vector_space_equivalent, find_closest_vector_in_space,
+is_vector_linear_independent (reference contracts + relation to the basis of get_matrix_orthogonal_basis), has_rank_hierarchical_method options
+return_info / zero_eps, get_matrix_numerical_range_along_direction (value = x^H A x e^{-i alpha}, inside W(A), extremal on the ray against the
+reference radial function, 2 pi periodic in alpha for |alpha| up to ~20). No torch path and no stateful objects exist in the anchored files.
+
 Defects found with this module and since repaired in /repo (their reversals are mutants): defect 16 (rank-one detector
 compared its bound with 1 without tolerance) and the LU-pivot regularity test of both hierarchies (false certificates when
 the planted element has a small coefficient on the last basis vector; keys .../false-certificate/k<k>/small-coefficient).
@@ -89,6 +100,12 @@ ASSUMPTIONS = [
     'tolerances: 1e-9 relative to the operator norm for numerical ranges and bounds; 1e-9 (relative to the squared norm) for orthogonality and '
     'norm spread; span residuals and complement-vs-generator inner products max(1e-10, 1e3*eps*kappa) with kappa the condition number of the '
     'generators inside their span (observed need: 24*eps*kappa), inconclusive beyond 1e-6',
+    'reduce_vector_space / get_vector_orthogonal_basis: the documented threshold zero_eps is absolute; the row count is judged with a decade of slack '
+    'around it and span clauses only when no singular value lies in that decade; inputs above 4096 entries are not judged (cost)',
+    'get_matrix_numerical_range_along_direction is judged only for size >= 3, when 0 lies well inside W(A) (min support value >= 0.05*norm) and '
+    'the returned vector reproduces the value (otherwise the documented "non-smooth boundary" caveat applies); extremality to 1e-6*norm',
+    'is_vector_linear_independent is judged only for clear-cut inputs (singular values in [1e-2, 10], or exactly dependent / more rows than columns): '
+    'its Gram-pivot threshold 1e-7 is absolute',
     'a ghost label is registered only when the reference finds the handed basis orthonormal to 1e-12 and the planted element inside its '
     'span to 1e-12 (otherwise the case is inconclusive); "contains" is therefore meant up to 1e-12, far below the 1e-7 thresholds of the certificates',
 ]
@@ -346,7 +363,20 @@ def install(ctx, numqi):
         k = c.arg(2, 'hierarchy_k', 1)
         res = c.result
         if c.arg(4, 'return_info', False) and isinstance(res, tuple):
+            info = np.asarray(res[1]) if len(res) == 2 else None
             res = res[0]
+            ok = info is not None and info.ndim == 2 and info.shape[0] == info.shape[1] and bool(np.all(np.isfinite(info)))
+            if ctx.check(ok, 'hierarchy/return-info-form', 'return_info=True must return (bool, square matrix of the linear system)', {'shape': list(np.shape(info))}) and _is_bool(res):
+                ev = np.linalg.eigvalsh((info + info.conj().T) / 2)
+                ze = c.arg(3, 'zero_eps', 1e-7)
+                herm = float(np.abs(info - info.conj().T).max())
+                nn = n_index(space.shape[0], rank - 1 + k)
+                ctx.check(info.shape[0] == nn and herm <= 1e-9 * max(1.0, float(ev[-1])) and ev[0] >= -1e-9 * max(1.0, float(ev[-1])), 'hierarchy/return-info-not-a-gram-matrix',
+                          'the returned matrix is not a Hermitian PSD matrix indexed by the multisets of size rank-1+k of the generators',
+                          {'shape': list(info.shape), 'expected_size': nn, 'hermiticity': herm, 'smallest_eigenvalue': float(ev[0])}, point='hierarchy/return-info')
+                if abs(ev[0] - ze) > 1e-3 * ze:
+                    ctx.check(bool(res) == bool(ev[0] > ze), 'hierarchy/return-info-inconsistent', 'the boolean answer is not "the returned matrix is regular"',
+                              {'answer': bool(res), 'smallest_eigenvalue': float(ev[0]), 'zero_eps': ze})
         if not ctx.check(_is_bool(res), 'hierarchy/return-type', 'has_rank_hierarchical_method must return a bool', {'type': type(res).__name__}):
             return
         lab = REG.get(_dg(space))
@@ -382,6 +412,202 @@ def install(ctx, numqi):
                   wit, point='planted/hierarchy')
 
     ctx.attach(ms._hierarchy, 'has_rank_hierarchical_method', post=post_hier, pre=pre_arg0('matrix_subspace'))
+
+    # ---------------------------------------------------------------- secondary entry points of _misc.py (the reduction / complement
+    # machinery of get_matrix_orthogonal_basis is public on its own, and is reached through it on every call)
+    def post_reduce(c):
+        if c.exc is not None:
+            return
+        v = at_call(c, 'np0', 'reduce_vector_space')
+        zero_eps = c.arg(1, 'zero_eps', 1e-10)
+        if v is None or v.ndim != 2 or v.size == 0 or v.size > 4096:      # size limit: the reference costs three SVDs
+            return
+        res = np.asarray(c.result)
+        if not ctx.check(res.ndim == 2 and res.shape[1] == v.shape[1], 'reduce_vector_space/shape', 'must return rows of the same length', {'in': list(v.shape), 'out': list(res.shape)}):
+            return
+        sv = rm.singular_values(v)
+        lo, hi = int((sv > 10 * zero_eps).sum()), int((sv > zero_eps / 10).sum())      # documented: absolute threshold on the singular values
+        wit = lambda **kw: dict(shape=list(v.shape), dtype=str(v.dtype), zero_eps=zero_eps, singular=sv[:12], n_returned=int(res.shape[0]), **kw)
+        ctx.check(lo <= res.shape[0] <= hi, 'reduce_vector_space/dimension-wrong',
+                  'number of returned rows differs from the number of singular values above zero_eps (a decade of slack around zero_eps)',
+                  lambda: wit(expected=[lo, hi]), point='reduce_vector_space/dimension')
+        if res.shape[0] == 0 or lo != hi:
+            return
+        od = float(np.abs(rm.gram(res) - np.eye(res.shape[0])).max())
+        ctx.check(od <= TOL_ORTH, 'reduce_vector_space/not-orthonormal', 'returned rows are not orthonormal', lambda: wit(defect=od))
+        kappa = float(sv[0] / sv[lo - 1])
+        tol = max(TOL_SPAN_FLOOR, 1e3 * 2.3e-16 * kappa)
+        if tol > 1e-6:
+            ctx.inconclusive('reduce_vector_space/ill-conditioned')
+            return
+        keep = v[np.linalg.norm(v, axis=1) > 1e-3 * sv[0]]      # rows that are themselves of the noise level are not judged for membership
+        r1 = rm.residual_onto(v, res)
+        r2 = rm.residual_onto(res, keep) if keep.shape[0] else 0.0
+        dropped = float(sv[lo]) if lo < len(sv) else 0.0        # what the threshold is allowed to cut off, seen from a row of norm >= 1e-3*sv[0]
+        ctx.check(r1 <= tol and r2 <= 1e3 * tol + dropped / (1e-3 * sv[0]), 'reduce_vector_space/span-mismatch', 'span of the returned rows differs from the span of the input rows',
+                  lambda: wit(residual_out_in=r1, residual_in_out=r2, tol=tol, kappa=kappa))
+
+    ctx.attach(ms._misc, 'reduce_vector_space', post=post_reduce, pre=pre_arg0('np0'))
+
+    def post_vec_orth(c):
+        if c.exc is not None:
+            return
+        v = at_call(c, 'np0', 'get_vector_orthogonal_basis')
+        if v is None or v.ndim != 2 or v.size == 0 or v.size > 4096:
+            return
+        res = np.asarray(c.result)
+        if not ctx.check(res.ndim == 2 and res.shape[1] == v.shape[1], 'vector_complement/shape', 'must return rows of the same length', {'in': list(v.shape), 'out': list(res.shape)}):
+            return
+        rank, amb = rm.rank_decision(v)
+        if amb or rank == 0:
+            ctx.inconclusive('vector_complement/ill-conditioned')
+            return
+        wit = lambda **kw: dict(shape=list(v.shape), dtype=str(v.dtype), rank=rank, n_returned=int(res.shape[0]), tag_reduce=c.arg(1, 'tag_reduce', True), **kw)
+        ctx.check(res.shape[0] == v.shape[1] - rank, 'vector_complement/dim+codim', 'rank + number of complement rows differs from the ambient dimension', wit,
+                  point='vector_complement/dim+codim')
+        if res.shape[0] == 0:
+            return
+        od = float(np.abs(rm.gram(res) - np.eye(res.shape[0])).max())
+        ctx.check(od <= TOL_ORTH, 'vector_complement/not-orthonormal', 'complement rows are not orthonormal', lambda: wit(defect=od))
+        q = rm.onb(v)
+        cb = float(np.abs(rm.gram(q, res)).max())        # Hermitian inner product <v_i, w> = sum conj(v_i) w
+        ctx.check(cb <= TOL_ORTH, 'vector_complement/not-orthogonal-to-input', 'complement rows are not orthogonal (Hermitian inner product) to the input span',
+                  lambda: wit(max_inner=cb))
+
+    ctx.attach(ms._misc, 'get_vector_orthogonal_basis', post=post_vec_orth, pre=pre_arg0('np0'))
+
+    def _field_rows(x, field, split=None):
+        x = np.asarray(x)
+        x = x.reshape(x.shape[0], -1)
+        if field == 'real':
+            split = np.iscomplexobj(x) if split is None else split
+            return np.concatenate([x.real, x.imag], axis=1).astype(np.float64) if split else x.real.astype(np.float64)
+        return x.astype(np.complex128)
+
+    def post_equiv(c):
+        if c.exc is not None:
+            return
+        a, b, field = c.arg(0, 'space0'), c.arg(1, 'space1'), c.arg(2, 'field')
+        if field not in ('real', 'complex') or not _is_bool(c.result):
+            ctx.check(_is_bool(c.result), 'space_equivalent/return-type', 'is_vector_space_equivalent must return a bool', {'type': type(c.result).__name__})
+            return
+        split = np.iscomplexobj(a) or np.iscomplexobj(b)
+        va, vb = _field_rows(a, field, split), _field_rows(b, field, split)
+        (ra, amb_a), (rb, amb_b) = rm.rank_decision(va), rm.rank_decision(vb)
+        if amb_a or amb_b or ra == 0 or rb == 0:
+            ctx.inconclusive('space_equivalent/ill-conditioned')
+            return
+        r = max(rm.residual_onto(va, vb), rm.residual_onto(vb, va))
+        expected = True if r <= 1e-12 else (False if r >= 1e-6 else None)      # the library's threshold is 1e-10 on the residual
+        if expected is None:
+            ctx.inconclusive('space_equivalent/near-threshold')
+            return
+        ctx.check(bool(c.result) == expected, 'space_equivalent/wrong-answer/' + ('equal-spans' if expected else 'different-spans'),
+                  'is_vector_space_equivalent disagrees with the residual of each span in the other (reference least squares over the field)',
+                  lambda: {'answer': bool(c.result), 'residual': r, 'field': field, 'shapes': [list(np.shape(a)), list(np.shape(b))],
+                           'dtypes': [str(np.asarray(a).dtype), str(np.asarray(b).dtype)]}, point='space_equivalent/answer')
+
+    ctx.attach(ms._misc, 'is_vector_space_equivalent', post=post_equiv)
+
+    def post_closest(c):
+        if c.exc is not None:
+            return
+        space, vec, field = c.arg(0, 'space'), c.arg(1, 'vec'), c.arg(2, 'field')
+        res = c.result
+        ok = isinstance(res, tuple) and len(res) == 2
+        if not ctx.check(ok, 'closest_vector/return-form', 'find_closest_vector_in_space must return (coefficients, squared residual)', {'type': type(res).__name__}):
+            return
+        S = np.asarray(space)
+        S = S.reshape(S.shape[0], -1)
+        w = np.asarray(vec).reshape(-1)
+        # documented key table: real coefficients iff field == 'real' and something is complex, else the natural least squares
+        split = np.iscomplexobj(S) or np.iscomplexobj(w)
+        if field == 'real':
+            Sr, wr = _field_rows(S, 'real', split), _field_rows(w[None], 'real', split)[0]
+        else:
+            Sr, wr = S.astype(np.complex128), w.astype(np.complex128)
+        rank, amb = rm.rank_decision(Sr)
+        if amb or rank < Sr.shape[0]:
+            ctx.inconclusive('closest_vector/dependent-space')
+            return
+        q = rm.onb(Sr)
+        ref = float(np.linalg.norm(wr - (wr @ q.conj().T) @ q)**2)
+        sc = float(np.linalg.norm(wr)**2) or 1.0
+        sv = rm.singular_values(Sr)
+        tol = max(1e-12, 1e3 * 2.3e-16 * float(sv[0] / sv[-1])) * sc
+        coeff = np.asarray(res[0]).reshape(-1)
+        ok = coeff.shape[0] == S.shape[0]
+        ctx.check(ok and abs(float(res[1]) - ref) <= tol, 'closest_vector/residual-wrong', 'squared distance to the span differs from the reference projection',
+                  lambda: {'returned': float(res[1]), 'reference': ref, 'tol': tol, 'field': field, 'space': list(S.shape), 'dtypes': [str(S.dtype), str(w.dtype)]},
+                  point='closest_vector/residual')
+        if ok:
+            if field == 'real' and np.iscomplexobj(coeff):
+                ctx.check(float(np.abs(coeff.imag).max()) <= 1e-12, 'closest_vector/complex-coefficients-over-R', 'coefficients over the real field are complex', {'coeff': coeff})
+            d2 = float(np.linalg.norm(coeff @ S - w)**2)
+            ctx.check(abs(d2 - ref) <= tol, 'closest_vector/coefficients-not-optimal', 'the returned coefficients do not attain the minimal distance',
+                      lambda: {'attained': d2, 'reference': ref, 'tol': tol, 'field': field})
+
+    ctx.attach(ms._misc, 'find_closest_vector_in_space', post=post_closest)
+
+    def post_indep(c):
+        if c.exc is not None:
+            return
+        v, field = c.arg(0, 'np0'), c.arg(1, 'field')
+        if field not in ('real', 'complex'):
+            return
+        if not ctx.check(_is_bool(c.result), 'linear_independent/return-type', 'is_vector_linear_independent must return a bool', {'type': type(c.result).__name__}):
+            return
+        rows = _field_rows(v, field)
+        sv = rm.singular_values(rows)
+        if rows.shape[0] > rows.shape[1]:
+            expected = False
+        elif sv.size and sv[0] > 0 and 0.1 <= sv[0] <= 10 and sv[-1] >= 1e-2:
+            expected = True           # Gram pivots >= sv_min^2 = 1e-4 >> zero_eps = 1e-7
+        elif sv.size and sv[0] > 0 and sv[0] <= 10 and sv[-1] <= 1e-12 * sv[0]:
+            expected = False
+        else:
+            ctx.inconclusive('linear_independent/not-clear-cut')
+            return
+        ctx.check(bool(c.result) == expected, 'linear_independent/wrong-answer/' + ('independent' if expected else 'dependent'),
+                  'is_vector_linear_independent disagrees with the singular values of the rows over the field',
+                  lambda: {'answer': bool(c.result), 'field': field, 'shape': list(np.shape(v)), 'dtype': str(np.asarray(v).dtype), 'singular': sv[:12]},
+                  point='linear_independent/answer')
+
+    ctx.attach(ms._misc, 'is_vector_linear_independent', post=post_indep)
+
+    # ---------------------------------------------------------------- get_matrix_numerical_range_along_direction
+    def post_along(c):
+        if c.exc is not None:
+            return
+        A = at_call(c, 'matA', 'numerical_range_along')
+        if A is None or A.ndim != 2 or A.shape[0] < 3 or A.shape[0] > 32:
+            return                       # size 2: eigsh falls back to a general eigen-solver (k >= N-1), not judged
+        alpha = float(c.arg(1, 'alpha'))
+        kind = c.arg(2, 'kind', 'max')
+        res = c.result
+        ok = isinstance(res, tuple) and len(res) == 2 and np.ndim(res[0]) == 0 and np.shape(res[1]) == (A.shape[0],)
+        if not ctx.check(ok, 'numerical_range_along/return-form', 'must return (float, eigenvector)', {'type': type(res).__name__}):
+            return
+        val, x = float(res[0]), np.asarray(res[1])
+        sc = float(np.linalg.norm(A, 2)) or 1.0
+        p = np.vdot(x, A @ x) / max(float(np.vdot(x, x).real), 1e-300)
+        if abs((p / np.exp(1j * alpha)).imag) > 1e-9 * sc:
+            ctx.hit('numerical_range_along/not-judged(documented: non-smooth boundary)')
+            return
+        a_eff = alpha if kind == 'max' else alpha + np.pi
+        r, hmin = rm.radial_extent(A, a_eff)
+        if hmin < 0.05 * sc:
+            ctx.hit('numerical_range_along/not-judged(origin not well inside)')
+            return
+        w = lambda: {'alpha': alpha, 'kind': kind, 'value': val, 'reference_extent': r, 'size': A.shape[0], 'A': A}
+        ctx.check(abs(p - val * np.exp(1j * alpha)) <= 1e-9 * sc, 'numerical_range_along/value-vs-vector', 'x^H A x of the returned vector is not value*e^{i alpha}', w)
+        sval = val if kind == 'max' else -val
+        ctx.check(sval <= r + 1e-8 * sc, 'numerical_range_along/point-outside-range', 'value*e^{i alpha} lies outside W(A)', w, point='numerical_range_along/inside')
+        ctx.check(sval >= r - 1e-6 * sc, 'numerical_range_along/not-extremal', 'value*e^{i alpha} is not the extreme point of W(A) on the ray of direction alpha (smooth boundary, 0 inside)',
+                  w, point='numerical_range_along/extremal')
+        _worst(ctx, 'numerical_range_along_worst', '|value-extent|/norm', abs(sval - r) / sc)
+
+    ctx.attach(ms._numerical_range, 'get_matrix_numerical_range_along_direction', post=post_along, pre=pre_arg0('matA'))
 
     # ---------------------------------------------------------------- is_ABC_completely_entangled_subspace
     def post_abc(c):
@@ -436,7 +662,9 @@ def install(ctx, numqi):
         else:
             nsample, nstart = 64, 4
         val, (x, y) = rm.product_extreme(M, dA, dB, _mon_rng(mat), kind, nsample=nsample, nstart=nstart)
-        sc = max(1.0, float(np.linalg.norm(M, 2)))
+        # relative to the operator norm at EVERY magnitude (no floor of 1: a tiny matrix is judged as strictly as an ordinary one;
+        # measured on the unchanged tree for scales 1e-8..1e8 and shifts up to 1e6: the bound dominates the product value to 3e-15*norm)
+        sc = float(np.linalg.norm(M, 2)) or 1.0
         tol = TOL_RANGE * sc
         if not ctx.check(np.isfinite(ret), 'bipartite_range/not-finite', 'bound is not finite', {'ret': ret, 'kind': kind}):
             return
@@ -512,7 +740,9 @@ def install(ctx, numqi):
             return
         th = np.linspace(0, 2 * np.pi, npt)
         h = rm.support_values(A, th)
-        sc = max(1.0, float(np.linalg.norm(A, 2)))
+        # relative to the operator norm at every magnitude (measured: <= 3e-15*norm for scales 1e-8..1e8, c*1+1e-12*X, nearly
+        # degenerate top eigenvalues), no floor of 1
+        sc = float(np.linalg.norm(A, 2)) or 1.0
         proj = (np.exp(1j * th) * pts).real
         gap = float((h - proj).max()) / sc
         i = int(np.argmax(h - proj))
@@ -616,6 +846,46 @@ def run_basis(ctx, numqi, shard):
                     ctx.case('basis-view', gens, field, nontrivial=n_gen > k)
                     with ctx.guard(f'basis/{cls}'):
                         ms.get_matrix_orthogonal_basis(view, field)
+    # hostile / numerical regime: nearly rank-deficient, badly conditioned but admissible generator lists. The coordinate matrix has EXACTLY
+    # the prescribed singular values (1,..,1,weak) or a geometric ladder down to 1e-6 (all >= 1e-8 absolute: two decades above the
+    # library's absolute zero_eps=1e-10), with exactly dependent extra generators; fewer and more generators than the ambient dimension.
+    # The span tolerances are 1e3*eps*kappa with kappa = 1/weak known from the construction and re-measured by the reference.
+    ctx.workload('hostile')
+    weak_all = (1e-3, 1e-4, 1e-5, 1e-6)
+    for ti, (combo, m, n) in enumerate(todo):
+        cls, dt, field = combo
+        D = rm.ambient_dim(cls, m, n)
+        for rep in range(1 if quick else 4):
+            if ctx.time_left() < 3:
+                ctx.extra['truncated'] = True
+                break
+            weak = weak_all[(ti + rep + shard['part']) % 4]
+            k = int(rng.integers(2, D + 1)) if D > 2 else 2
+            if (ti + rep) % 3 == 2 and k >= 3:
+                sv = np.geomspace(1.0, 1e-6, k)
+                shape_name = 'geometric-ladder'
+            else:
+                sv = np.ones(k)
+                sv[-1] = weak
+                shape_name = 'one-weak-direction'
+            n_gen = k + int(rng.choice([0, 0, 2, 5]))
+            scale = float(rng.choice([1.0, 1e-2, 1e2]))
+            gens = rm.graded_generators(rng, combo, m, n, sv, n_gen, scale)
+            desc = {'op': 'basis/graded-generators', 'combo': list(combo), 'm': m, 'n': n, 'spanned_dim': k, 'n_generators': n_gen, 'scale': scale,
+                    'singular_values': shape_name, 'smallest_relative_singular_value': float(sv.min()), 'fewer_generators_than_ambient': bool(n_gen < D)}
+            ctx.set_case(desc)
+            ctx.case('basis-graded', gens, field, nontrivial=True, sample=dict(desc, first_generator=gens[0]) if (ti == 1 and rep == 0) else None)
+            _stat(ctx, 'basis_graded_cases', f'{cls}/weak={sv.min():.0e}')
+            with ctx.guard(f'basis/{cls}'):
+                ms.get_matrix_orthogonal_basis(gens, field)
+        # small overall magnitude, well conditioned (the library's thresholds are absolute: 1e-6 is four decades above them)
+        if ti % 2 == shard['part'] % 2:
+            k = max(1, D // 2)
+            gens = rm.structured_generators(rng, combo, m, n, k, k + 2, 1e-6)
+            ctx.set_case({'op': 'basis/tiny-scale', 'combo': list(combo), 'm': m, 'n': n, 'spanned_dim': k, 'scale': 1e-6})
+            ctx.case('basis-tiny', gens, field, nontrivial=True)
+            with ctx.guard(f'basis/{cls}'):
+                ms.get_matrix_orthogonal_basis(gens, field)
     # corner: generators that are basis-like (unit matrices / a single generator), every class
     ctx.workload('corner')
     if shard['part'] == 0:
@@ -639,6 +909,7 @@ def run_realistic(ctx, numqi, shard):
     """the library's own examples and constructions with the contracts on"""
     ms = numqi.matrix_space
     rng = ctx.rng
+    run_entrypoints(ctx, numqi, shard)
     ctx.workload('realistic')
     for key in ('XZ_R', 'XZ_C', '0error-eq524', 'hierarchy-ex1', 'hierarchy-ex3', 'hierarchy-ex5'):
         ctx.set_case({'op': 'example', 'key': key})
@@ -701,6 +972,121 @@ def run_realistic(ctx, numqi, shard):
                         ms.has_rank_hierarchical_method(flat, rank=2, hierarchy_k=1)
 
 
+def run_entrypoints(ctx, numqi, shard):
+    """less prominent public entry points of the anchored files that consume the same machinery: the vector-level reduction and
+    complement, span equivalence, closest vector, linear independence, the numerical range along a ray. Each is judged by its own
+    contract (reference model) and related to get_matrix_orthogonal_basis where the two must agree."""
+    ms = numqi.matrix_space
+    rng = ctx.rng
+    quick = ctx.tier == 'quick'
+    ctx.workload('entry-points')
+    reps = 1 if quick else 6
+    for rep in range(reps):
+        # ---- reduce_vector_space / get_vector_orthogonal_basis called directly: wide, square and TALL row matrices, real and complex,
+        # exact dependence, one weak direction, full rank (empty complement), rank one
+        for (r, c_) in [(2, 5), (4, 4), (7, 3), (3, 3), (1, 4), (6, 6), (9, 4), (3, 8)]:
+            for cplx in (False, True):
+                kmax = min(r, c_)
+                for k, weak in [(kmax, 1.0), (max(1, kmax - 1), 1.0), (kmax, 1e-5), (1, 1.0)]:
+                    q = rm.orthonormal_rows(rm._randn(rng, cplx, k, c_))
+                    sv = np.ones(k)
+                    sv[-1] = weak
+                    u = rm.orthonormal_rows(rm._randn(rng, cplx, k, r)).T if r >= k else None
+                    if u is None:
+                        continue
+                    V = (u * sv[None, :]) @ q
+                    desc = {'op': 'vector-space', 'rows': r, 'cols': c_, 'rank': k, 'complex': cplx, 'weak': weak}
+                    ctx.set_case(desc)
+                    ctx.case('vector-space', V, nontrivial=r > k)
+                    with ctx.guard('reduce_vector_space'):
+                        red = ms.reduce_vector_space(V)
+                    with ctx.guard('vector_complement'):
+                        o1 = ms.get_vector_orthogonal_basis(V)
+                        if isinstance(red, np.ndarray) and red.ndim == 2 and red.shape[0]:
+                            o2 = ms.get_vector_orthogonal_basis(np.array(red), tag_reduce=False)
+                            same = np.shape(o1) == np.shape(o2) and (np.shape(o1)[0] == 0 or float(np.abs(
+                                rm.gram(rm.onb(np.asarray(o1)), np.asarray(o2)) @ rm.gram(rm.onb(np.asarray(o1)), np.asarray(o2)).conj().T - np.eye(len(o2))).max()) <= 1e-8)
+                            ctx.check(same, 'vector_complement/tag_reduce-dependent', 'complement of the rows and complement of their reduced rows span different spaces',
+                                      dict(desc, shapes=[list(np.shape(o1)), list(np.shape(o2))]))
+        # ---- span equivalence and closest vector, related to the basis of get_matrix_orthogonal_basis
+        for ci, combo in enumerate(rm.COMBOS):
+            cls, dt, field = combo
+            m = 2 + (ci + rep) % 3
+            n = m if cls in ('R_T', 'C_T', 'C_H', 'R_cT') else 2 + (ci + rep + 1) % 4
+            D = rm.ambient_dim(cls, m, n)
+            k = max(1, min(D - 2, D // 2))
+            gens = rm.structured_generators(rng, combo, m, n, k, k + 2)
+            desc = {'op': 'span-equivalence', 'combo': list(combo), 'm': m, 'n': n, 'spanned_dim': k}
+            ctx.set_case(desc)
+            ctx.case('span-equivalence', gens, field, nontrivial=True)
+            with ctx.guard('space_equivalent'):
+                b, o, ch = ms.get_matrix_orthogonal_basis(gens, field)
+                if cls in rm.EMBEDDED or len(o) == 0:
+                    continue                      # the embedded classes return another representation: not comparable entry-wise
+                b = np.asarray(b)
+                e1 = ms.is_vector_space_equivalent(gens, b, field)
+                e2 = ms.is_vector_space_equivalent(b, gens[::-1].copy(), field)
+                bigger = np.concatenate([b, np.asarray(o)[:1]], axis=0)
+                e3 = ms.is_vector_space_equivalent(gens, bigger, field)
+                e4 = ms.is_vector_space_equivalent(bigger, gens, field)
+                smaller = b[:-1] if len(b) > 1 else None
+                e5 = ms.is_vector_space_equivalent(gens, smaller, field) if smaller is not None else False
+                ctx.check(_truthy(e1) and _truthy(e2) and not _truthy(e3) and not _truthy(e4) and not _truthy(e5), f'space_equivalent/disagrees-with-basis/{cls}',
+                          'span(generators) must be equivalent to span(basis) in both argument orders, and not to the basis plus a complement element / minus one element',
+                          dict(desc, answers=[bool(x) for x in (e1, e2, e3, e4, e5)]), point='space_equivalent/vs-basis')
+            with ctx.guard('closest_vector'):
+                # a generator has distance 0 from span(basis); a complement element of norm a has squared distance a^2
+                t = np.tensordot(rm._randn(rng, field == 'complex' and dt == 'complex', len(gens)), gens, axes=(0, 0))
+                c0, d0 = ms.find_closest_vector_in_space(b, t, field)
+                comp = np.asarray(o)[0]
+                c1, d1 = ms.find_closest_vector_in_space(b, t + 0.5 * comp, field)
+                nrm2 = float(np.linalg.norm(comp)**2)
+                ctx.check(abs(float(d0)) <= 1e-12 * max(1.0, float(np.linalg.norm(t)**2)) and abs(float(d1) - 0.25 * nrm2) <= 1e-9 * max(1.0, float(np.linalg.norm(t)**2)),
+                          f'closest_vector/disagrees-with-basis/{cls}', 'distance of (span element + 0.5*complement element) from span(basis) must be 0.25*|complement element|^2',
+                          dict(desc, d_inside=float(d0), d_outside=float(d1), expected_outside=0.25 * nrm2), point='closest_vector/vs-basis')
+            with ctx.guard('linear_independent'):
+                i1 = ms.is_vector_linear_independent(b / max(float(np.linalg.norm(b[0])), 1e-300), field)
+                i2 = ms.is_vector_linear_independent(np.concatenate([b, b[:1] + (b[1:2] if len(b) > 1 else 0)], axis=0) / max(float(np.linalg.norm(b[0])), 1e-300), field)
+                ctx.check(_truthy(i1) and not _truthy(i2), f'linear_independent/disagrees-with-basis/{cls}', 'a returned basis must be independent; with a dependent element appended it must not be',
+                          dict(desc, answers=[bool(i1), bool(i2)]), point='linear_independent/vs-basis')
+        # complex rows that are dependent over C but independent over R (field matters)
+        with ctx.guard('linear_independent'):
+            z = rm.orthonormal_rows(rm._randn(rng, True, 2, 5))
+            zz = np.concatenate([z, 1j * z[:1]], axis=0)
+            ctx.set_case({'op': 'independence-over-R-vs-C'})
+            ctx.case('independence-over-R-vs-C', zz, nontrivial=True)
+            ms.is_vector_linear_independent(zz, 'real')
+            ms.is_vector_linear_independent(zz, 'complex')
+            ms.is_vector_space_equivalent(zz, z, 'complex')
+            ms.is_vector_space_equivalent(zz, z, 'real')
+            ms.find_closest_vector_in_space(z, 1j * z[0] + z[1], 'real')
+            ms.find_closest_vector_in_space(z, 1j * z[0] + z[1], 'complex')
+            ms.find_closest_vector_in_space(z.real, z[0], 'real')
+            ms.find_closest_vector_in_space(z.real, z[0].real, 'complex')
+        # ---- numerical range along a ray: 0 well inside W(A) (trace removed), smooth boundary (generic non-normal), directions far outside
+        # [0, 2 pi) must give the value of the wrapped direction
+        for d in (3, 4, 5, 6, 8):
+            A = rm.rand_square(rng, d, 'nonnormal' if d % 2 else 'real-nonnormal')
+            A = A - np.trace(A) / d * np.eye(d)
+            if d == 6:
+                A = A * 1e-6
+            alpha = float(rng.uniform(0, 2 * np.pi))
+            for kind in ('max', 'min'):
+                desc = {'op': 'numerical-range-along-direction', 'size': d, 'alpha': alpha, 'kind': kind}
+                ctx.set_case(desc)
+                ctx.case('numrange-along', A, alpha, kind, nontrivial=True)
+                vals = []
+                with ctx.guard('numerical_range_along'):
+                    for wrap in (0, 3, -2):
+                        with contextlib.redirect_stdout(None):
+                            r_ = ms.get_matrix_numerical_range_along_direction(A, alpha + 2 * np.pi * wrap, kind=kind)
+                        vals.append(float(r_[0]))
+                if len(vals) == 3:
+                    sc = float(np.linalg.norm(A, 2))
+                    ctx.check(max(vals) - min(vals) <= 1e-7 * sc, 'numerical_range_along/direction-not-2pi-periodic',
+                              'the value along alpha differs from the value along alpha + 2 pi k', dict(desc, values=vals), point='numerical_range_along/periodic')
+
+
 def run_rank_one(ctx, numqi, shard):
     ms = numqi.matrix_space
     rng = ctx.rng
@@ -716,7 +1102,17 @@ def run_rank_one(ctx, numqi, shard):
         N = int(rng.integers(1, Nmax + 1))
         spread = 1.0
         basis, planted, cond = rm.planted_low_rank(rng, dA, dB, 1, N, False, spread)
-        desc = {'op': 'planted-rank-one', 'dA': dA, 'dB': dB, 'N': N, 'mixing_cond': cond}
+        variant = 'general'
+        if dA == dB and it % 2 == 1:
+            # subspace of SYMMETRIC matrices with planted x x^T: the detector takes the Gell-Mann (R_T) branch of the basis function
+            N = int(rng.integers(1, max(1, (dA * (dA - 1)) // 2) + 1))
+            basis, planted = rm.planted_symmetric_rank_one(rng, dA, N)
+            variant, cond = 'symmetric', None
+        elif it % 7 == 3:
+            basis = np.ascontiguousarray(basis + 1e-14 * rng.normal(size=basis.shape))     # equal up to rounding noise only
+            variant = 'rounding-noise'
+        desc = {'op': 'planted-rank-one', 'dA': dA, 'dB': dB, 'N': N, 'mixing_cond': cond, 'variant': variant}
+        _stat(ctx, 'rank_one_variants', variant)
         ctx.set_case(desc)
         lab = label_lowrank(ctx, basis, planted, False)
         if lab is None:
@@ -780,11 +1176,15 @@ def run_bipartite(ctx, numqi, shard):
             M = ((M4 + M4.transpose(0, 3, 2, 1)) / 2).reshape(D, D)
             M = (M + M.T) / 2
         M = (M + M.T) / 2
+        regime = 'ordinary'
+        if it % 7 == 3:
+            regime = ['scale=1e-8', 'scale=1e8', 'shift=1e6'][(it // 7) % 3]      # judged relative to the operator norm
+            M = M * 1e-8 if regime == 'scale=1e-8' else (M * 1e8 if regime == 'scale=1e8' else M + 1e6 * np.eye(D))
         M4 = np.ascontiguousarray(M.reshape(dA, dB, dA, dB))
         pt = M4.transpose(0, 3, 2, 1).reshape(D, D)
-        nontriv = float(np.abs(pt - M).max()) > 1e-9
+        nontriv = float(np.abs(pt - M).max()) > 1e-9 * float(np.abs(M).max())
         for kind in ('max', 'min'):
-            desc = {'op': 'bipartite-range', 'dA': dA, 'dB': dB, 'flavour': flavour, 'kind': kind}
+            desc = {'op': 'bipartite-range', 'dA': dA, 'dB': dB, 'flavour': flavour, 'kind': kind, 'regime': regime}
             ctx.set_case(desc)
             ctx.case('bipartite', M4, kind, nontrivial=nontriv, sample=dict(desc, mat=M) if it == 7 and kind == 'max' else None)
             with ctx.guard('bipartite_range'):
@@ -876,8 +1276,15 @@ def run_hier(ctx, numqi, shard):
         # favour the larger subspaces (they are the ones where a wrong linear system would issue certificates)
         N = int(Ns[min(len(Ns) - 1, int(len(Ns) * rng.beta(2.0, 1.0)))])
         cplx = bool(it % 2)
-        spread = 1.0 if it % 4 < 2 else 10.0
+        # planted element of rank p >= 2 whose smallest singular value is up to 1e-6 of the largest: nearly of rank p-1, still of rank p < bound
+        spread = (1.0, 1.0, 10.0, 10.0, 1.0, 1.0, 1e3, 1e6)[it % 8]
         basis, planted, cond = rm.planted_low_rank(rng, dA, dB, p, N, cplx, spread)
+        if it % 6 == 4:
+            # the same subspace up to rounding noise (1e-14, not structure preserving; a real basis gets a complex dtype with an imaginary
+            # part of that size): the label is registered only if the reference still finds the planted element inside to 1e-12
+            noise = 1e-14 * rm._randn(rng, True, *basis.shape)
+            basis = np.ascontiguousarray(basis + (noise if (cplx or it % 12 == 4) else noise.real))
+            cplx = bool(np.iscomplexobj(basis))
         desc = {'op': 'planted-low-rank', 'dA': dA, 'dB': dB, 'planted_rank': p, 'N': N, 'complex': cplx, 'k': k, 'mixing_cond': cond,
                 'singular_spread': spread}
         ctx.set_case(desc)
@@ -896,8 +1303,15 @@ def run_hier(ctx, numqi, shard):
                      sample=dict(desc, rank_arg=r, basis=basis, planted=planted) if it == 3 else None)
             t0 = time.time()
             with ctx.guard('hierarchy'):
-                ms.has_rank_hierarchical_method(basis if it % 5 else list(basis), rank=r, hierarchy_k=k)
+                plain = ms.has_rank_hierarchical_method(basis if it % 5 else list(basis), rank=r, hierarchy_k=k)
             _worst(ctx, 'hierarchy_call_seconds', 'max', time.time() - t0)
+            if it % 7 == 1 and r == p + 1:
+                # option return_info=True: same boolean, and the matrix is the Gram matrix the answer is about (judged in the contract)
+                with ctx.guard('hierarchy'):
+                    ri = ms.has_rank_hierarchical_method(basis, rank=r, hierarchy_k=k, return_info=True)
+                    ctx.check(isinstance(ri, tuple) and len(ri) == 2 and _is_bool(ri[0]) and _is_bool(plain) and bool(ri[0]) == bool(plain),
+                              'hierarchy/return-info-changes-answer', 'return_info=True gives another boolean than the plain call', dict(desc, rank_arg=r),
+                              point='hierarchy/return-info-vs-plain')
         key = (dA, dB, p, N, cplx)
         if key not in control_done and n_index(N, p + k) <= shard['max_index']:
             control_done[key] = True
@@ -905,6 +1319,12 @@ def run_hier(ctx, numqi, shard):
             ctx.set_case({'op': 'control', 'dA': dA, 'dB': dB, 'rank_arg': p + 1, 'N': N, 'complex': cplx, 'k': k})
             with ctx.guard('hierarchy'):
                 res = ms.has_rank_hierarchical_method(ctrl, rank=p + 1, hierarchy_k=k)
+                if len(control_done) % 3 == 1:
+                    # option zero_eps: a stricter regularity threshold can only withdraw a certificate, never create one
+                    res_strict = ms.has_rank_hierarchical_method(ctrl, rank=p + 1, hierarchy_k=k, zero_eps=1e-4)
+                    ctx.check(_is_bool(res) and _is_bool(res_strict) and (bool(res) or not bool(res_strict)), 'hierarchy/zero_eps-not-monotone',
+                              'certificate with zero_eps=1e-4 but none with the default 1e-7 for the same subspace',
+                              {'dA': dA, 'dB': dB, 'N': N, 'k': k, 'rank_arg': p + 1, 'default': bool(res), 'strict': bool(res_strict)}, point='hierarchy/zero_eps-monotone')
             _stat(ctx, 'hierarchy_control', f'k{k}/' + ('certified' if res else 'not-certified'))
 
 
@@ -964,7 +1384,9 @@ def run_tripartite(ctx, numqi, shard):
                 with ctx.guard('tripartite'):
                     ms.is_ABC_completely_entangled_subspace(list(sp), hierarchy_k=k)
     ctx.workload('random')
-    dims_all = [(2, 2, 2), (2, 2, 3), (2, 3, 2), (3, 2, 2), (2, 3, 3), (3, 2, 3), (2, 2, 4), (3, 3, 3), (2, 3, 4), (4, 2, 2)]
+    # all three cyclic orders of (2,3,4); a middle party of dimension 1 is admissible (the outer ones are not: the library asserts)
+    dims_all = [(2, 2, 2), (2, 2, 3), (2, 3, 2), (3, 2, 2), (2, 3, 3), (3, 2, 3), (2, 2, 4), (3, 3, 3), (2, 3, 4), (4, 2, 2),
+                (3, 4, 2), (4, 2, 3), (2, 1, 3), (3, 1, 2), (3, 3, 2)]
     control_done = {}
     for it in range(shard['n']):
         if ctx.time_left() < 10:
@@ -1030,6 +1452,24 @@ def run_numrange(ctx, numqi, shard):
                 ms.get_matrix_numerical_range(A)
             else:
                 ms.get_matrix_numerical_range(A, num_point=npt)
+    # numerical regime: magnitudes 1e-8 / 1e8, c*1 + eps*X (the range has diameter eps around c), nearly degenerate top eigenvalue of a
+    # normal matrix (the eigenvector is ill-conditioned, the support value is not); all judged relative to the operator norm
+    ctx.workload('hostile')
+    for d in (2, 3, 4, 5, 6, 8):
+        X = rm.rand_square(rng, d, 'nonnormal' if d % 2 else 'real-nonnormal')
+        u = rm.random_rotation(rng, d, True)
+        fam = [('scale=1e-8', X * 1e-8), ('scale=1e8', X * 1e8)]
+        for eps in (1e-6, 1e-9, 1e-12):
+            cshift = complex(rng.normal(), rng.normal())
+            fam.append((f'c*1+{eps:g}*X', cshift * np.eye(d) + eps * X))
+            ev = rm._randn(rng, True, d)
+            ev[1] = ev[0] * (1 + eps)
+            fam.append((f'top-eigenvalue-gap={eps:g}', (u * ev) @ u.conj().T))
+        for name, A in fam:
+            ctx.set_case({'op': 'numerical-range-regime', 'size': d, 'regime': name})
+            ctx.case('numrange-regime', A, nontrivial=True)
+            with ctx.guard('numerical_range'):
+                ms.get_matrix_numerical_range(A, num_point=13)
     ctx.workload('corner')
     for d in (2, 4, 5, 8):
         for A in (np.eye(d) * (1 + 2j), np.diag(np.arange(d)).astype(np.complex128), np.diag([1.0] * (d - 1) + [0.5]).astype(np.complex128),
